@@ -1,9 +1,16 @@
-//! Reference view of the immutable-DB test fixtures, independent of pallas:
+//! Reference view of immutable-DB chunk triplets, independent of pallas:
 //! the chunk file is split at CBOR item boundaries with `refcbor`, slot and
-//! header hash of every block are read from the CBOR structure (Shelley-family
-//! layout `[era, [[header_body, sig], ..]]`, slot = header_body[1], hash =
-//! Blake2b-256 of the header item) and cross-checked against the secondary
-//! index entry (offset, CRC-32, header hash, slot). Also scratch directories.
+//! header hash of every block are read from the CBOR structure and
+//! cross-checked against the secondary index entry (offset, header offset and
+//! size, CRC-32, header hash, slot / epoch) and the primary index occupancy.
+//! * Shelley family `[era >= 2, [[header_body, sig], ..]]`: slot =
+//!   header_body[1], hash = Blake2b-256 of the header item;
+//! * Byron `[0 | 1, [header, body, extra]]`, header = `[magic, prev, proof,
+//!   consensus_data, extra]`: main block (1) consensus_data = `[[epoch, slot],
+//!   pubkey, [difficulty], sig]`, slot = epoch*21600 + slot; epoch boundary
+//!   block (0) consensus_data = `[epoch, [difficulty]]`, slot = epoch*21600;
+//!   hash = Blake2b-256 of the CBOR pair `[era tag, header]`.
+//! Also the index-file writer (`build_indexes`) and scratch directories.
 
 use mc_core::{blake2b, misc, refcbor};
 use std::path::{Path, PathBuf};
@@ -11,6 +18,7 @@ use std::path::{Path, PathBuf};
 pub const TEST_DATA: &str = "/repo/test_data";
 pub const CHUNKS: [&str; 3] = ["01285", "01836", "02019"];
 pub const SEC_ENTRY: usize = 56;
+pub const EPOCH_SLOTS: u64 = 21600;
 
 #[derive(Clone)]
 pub struct RefBlock {
@@ -18,6 +26,109 @@ pub struct RefBlock {
     pub len: usize,
     pub slot: u64,
     pub hash: [u8; 32],
+    /// Byron epoch boundary block (sits in relative slot 0 of its chunk; its
+    /// secondary entry carries the epoch number instead of the slot)
+    pub ebb: bool,
+    /// epoch number read from the header (Byron only, else 0)
+    pub epoch: u64,
+    /// span of the header item relative to the start of the block
+    pub header_off: usize,
+    pub header_len: usize,
+}
+
+/// Slot, hash and header span of one serialized block, from the CBOR alone.
+pub fn ref_block(buf: &[u8], it: &refcbor::Node) -> Result<RefBlock, String> {
+    let arr = it.as_array().ok_or("block is not an array")?;
+    if arr.len() != 2 {
+        return Err(format!("block wrapper of {} items", arr.len()));
+    }
+    let era = arr[0].as_u64().ok_or("era tag")?;
+    let inner = arr[1].as_array().ok_or("block body")?;
+    let header = inner.first().ok_or("header")?;
+    let (slot, hash, ebb, epoch) = if era < 2 {
+        if inner.len() != 3 {
+            return Err(format!("Byron block of {} items", inner.len()));
+        }
+        let h = header.as_array().ok_or("Byron header")?;
+        if h.len() != 5 {
+            return Err(format!("Byron header of {} items", h.len()));
+        }
+        let cd = h[3].as_array().ok_or("consensus data")?;
+        let (epoch, rel) = if era == 0 {
+            if cd.len() != 2 {
+                return Err(format!("EBB consensus data of {} items", cd.len()));
+            }
+            (cd[0].as_u64().ok_or("EBB epoch")?, 0)
+        } else {
+            if cd.len() != 4 {
+                return Err(format!("Byron consensus data of {} items", cd.len()));
+            }
+            let sid = cd[0].as_array().ok_or("slot id")?;
+            if sid.len() != 2 {
+                return Err("slot id is not a pair".into());
+            }
+            let rel = sid[1].as_u64().ok_or("slot in epoch")?;
+            if rel >= EPOCH_SLOTS {
+                return Err(format!("slot in epoch {rel}"));
+            }
+            (sid[0].as_u64().ok_or("epoch")?, rel)
+        };
+        let mut pre = vec![0x82u8, era as u8];
+        pre.extend_from_slice(header.span(buf));
+        (epoch * EPOCH_SLOTS + rel, blake2b::blake2b_256(&pre), era == 0, epoch)
+    } else {
+        let hb = header.as_array().and_then(|h| h.first()).and_then(|x| x.as_array()).ok_or("header body")?;
+        (hb.get(1).and_then(|x| x.as_u64()).ok_or("slot")?, blake2b::blake2b_256(header.span(buf)), false, 0)
+    };
+    Ok(RefBlock { offset: it.start, len: it.end - it.start, slot, hash, ebb, epoch, header_off: header.start - it.start, header_len: header.end - header.start })
+}
+
+/// Relative slot of a block inside chunk number `chunk_no`: 0 for the EBB,
+/// slot-in-epoch + 1 for a regular block.
+pub fn relative_slot(chunk_no: u64, b: &RefBlock) -> Option<u64> {
+    if b.ebb {
+        return (b.epoch == chunk_no).then_some(0);
+    }
+    let rel = b.slot.checked_sub(chunk_no * EPOCH_SLOTS)?;
+    (rel < EPOCH_SLOTS).then_some(rel + 1)
+}
+
+/// One secondary-index entry as the node writes it.
+pub fn secondary_entry(block: &[u8], b: &RefBlock) -> [u8; SEC_ENTRY] {
+    let mut e = [0u8; SEC_ENTRY];
+    e[0..8].copy_from_slice(&(b.offset as u64).to_be_bytes());
+    e[8..10].copy_from_slice(&(b.header_off as u16).to_be_bytes());
+    e[10..12].copy_from_slice(&(b.header_len as u16).to_be_bytes());
+    e[12..16].copy_from_slice(&misc::crc32(block).to_be_bytes());
+    e[16..48].copy_from_slice(&b.hash);
+    e[48..56].copy_from_slice(&(if b.ebb { b.epoch } else { b.slot }).to_be_bytes());
+    e
+}
+
+/// Primary + secondary index of a finished chunk (`rel_slots` relative slots:
+/// the EBB slot + 21600 for a chunk closed by the node).
+pub fn build_indexes(chunk_no: u64, chunk: &[u8], blocks: &[RefBlock], rel_slots: u64) -> Result<(Vec<u8>, Vec<u8>), String> {
+    let mut secondary = vec![];
+    let mut primary = vec![1u8];
+    primary.extend_from_slice(&0u32.to_be_bytes());
+    let mut next_rel = 0u64;
+    for b in blocks {
+        let rel = relative_slot(chunk_no, b).ok_or(format!("block of slot {} does not belong to chunk {chunk_no}", b.slot))?;
+        if rel < next_rel || rel >= rel_slots {
+            return Err(format!("relative slot {rel} out of order / range"));
+        }
+        // empty relative slots repeat the previous offset
+        for _ in next_rel..rel {
+            primary.extend_from_slice(&(secondary.len() as u32).to_be_bytes());
+        }
+        secondary.extend_from_slice(&secondary_entry(&chunk[b.offset..b.offset + b.len], b));
+        primary.extend_from_slice(&(secondary.len() as u32).to_be_bytes());
+        next_rel = rel + 1;
+    }
+    for _ in next_rel..rel_slots {
+        primary.extend_from_slice(&(secondary.len() as u32).to_be_bytes());
+    }
+    Ok((primary, secondary))
 }
 
 pub struct RefChunk {
@@ -60,30 +171,21 @@ pub fn load_chunk(name: &str) -> Result<RefChunk, String> {
 /// last, never-read chunk).
 pub fn load(dir: &Path, name: &str, strict: bool) -> Result<RefChunk, String> {
     let rd = |ext: &str| std::fs::read(dir.join(format!("{name}.{ext}"))).map_err(|e| format!("{name}.{ext}: {e}"));
-    let chunk = rd("chunk")?;
-    let primary = rd("primary")?;
-    let secondary = rd("secondary")?;
+    parse_triplet(name, rd("chunk")?, rd("primary")?, rd("secondary")?, strict)
+}
+
+/// Reference reader over the three files' bytes.
+pub fn parse_triplet(name: &str, chunk: Vec<u8>, primary: Vec<u8>, secondary: Vec<u8>, strict: bool) -> Result<RefChunk, String> {
     let items = refcbor::parse_seq(&chunk).map_err(|e| format!("{name}.chunk is not a CBOR sequence: {e:?}"))?;
     let mut blocks = vec![];
     for it in &items {
-        let arr = it.as_array().ok_or("block is not an array")?;
-        if arr.len() != 2 {
-            return Err(format!("{name}: block wrapper of {} items", arr.len()));
-        }
-        let era = arr[0].as_u64().ok_or("era tag")?;
-        if era < 2 {
-            return Err(format!("{name}: Byron block (era {era}) - the reference slot/hash reader only covers the Shelley-family layout"));
-        }
-        let inner = arr[1].as_array().ok_or("block body")?;
-        let header = inner.first().ok_or("header")?;
-        let hb = header.as_array().and_then(|h| h.first()).and_then(|x| x.as_array()).ok_or("header body")?;
-        let slot = hb.get(1).and_then(|x| x.as_u64()).ok_or("slot")?;
-        let hash = blake2b::blake2b_256(header.span(&chunk));
-        blocks.push(RefBlock { offset: it.start, len: it.end - it.start, slot, hash });
+        blocks.push(ref_block(&chunk, it).map_err(|e| format!("{name}: {e}"))?);
     }
     for w in blocks.windows(2) {
-        if w[0].slot >= w[1].slot {
-            return Err(format!("{name}: reference slots not strictly increasing"));
+        // slot order; only an EBB may share its slot with the block after it
+        let ok = w[0].slot < w[1].slot || (w[0].slot == w[1].slot && w[0].ebb && !w[1].ebb);
+        if !ok {
+            return Err(format!("{name}: reference slots not increasing"));
         }
     }
     if !strict {
@@ -98,33 +200,49 @@ pub fn load(dir: &Path, name: &str, strict: bool) -> Result<RefChunk, String> {
         if be(&e[0..8]) as usize != b.offset {
             return Err(format!("{name}: entry {i} offset {} vs CBOR boundary {}", be(&e[0..8]), b.offset));
         }
+        if be(&e[8..10]) as usize != b.header_off || be(&e[10..12]) as usize != b.header_len {
+            return Err(format!("{name}: entry {i} header span ({}, {}) vs CBOR header item ({}, {})", be(&e[8..10]), be(&e[10..12]), b.header_off, b.header_len));
+        }
         if be(&e[12..16]) as u32 != misc::crc32(&chunk[b.offset..b.offset + b.len]) {
             return Err(format!("{name}: entry {i} CRC mismatch"));
         }
         if e[16..48] != b.hash {
-            return Err(format!("{name}: entry {i} header hash differs from Blake2b-256 of the header item"));
+            return Err(format!("{name}: entry {i} header hash differs from Blake2b-256 of the header"));
         }
-        if be(&e[48..56]) != b.slot {
-            return Err(format!("{name}: entry {i} slot {} vs header slot {}", be(&e[48..56]), b.slot));
+        // block_or_ebb: slot of a regular block, EPOCH of an epoch boundary block
+        let want = if b.ebb { b.epoch } else { b.slot };
+        if be(&e[48..56]) != want {
+            return Err(format!("{name}: entry {i} block_or_ebb {} vs header {}", be(&e[48..56]), want));
         }
     }
-    // primary index: occupied slots must equal the blocks' relative slots
-    if primary.len() < 5 || (primary.len() - 1) % 4 != 0 {
-        return Err(format!("{name}: primary index of {} bytes", primary.len()));
+    // primary index: occupied relative slots must equal the blocks' relative
+    // slots (0 = epoch boundary block, block of slot s in (s - chunk_no * 21600) + 1)
+    if primary.len() < 9 || (primary.len() - 1) % 4 != 0 || primary[0] != 1 {
+        return Err(format!("{name}: primary index of {} bytes / version {}", primary.len(), primary.first().copied().unwrap_or(0)));
     }
     let offs = primary_offsets(&primary);
-    let base = name.parse::<u64>().map_err(|e| e.to_string())? * 21600;
-    // relative slot 0 of a chunk is reserved for an epoch boundary block; the
-    // block of slot s sits in relative slot (s - chunk_no * 21600) + 1
-    if offs[1] > offs[0] {
-        return Err(format!("{name}: relative slot 0 (EBB) is occupied - not covered by the reference reader"));
+    let no = name.parse::<u64>().map_err(|e| e.to_string())?;
+    if offs[0] != 0 || offs.windows(2).any(|w| w[1] != w[0] && w[1] != w[0] + SEC_ENTRY as u32) || *offs.last().unwrap_or(&0) as usize != secondary.len() {
+        return Err(format!("{name}: primary offsets are not a 0/56 step sequence ending at the secondary index size"));
     }
-    let occupied: Vec<u64> = (1..offs.len() - 1).filter(|i| offs[i + 1] > offs[*i]).map(|i| base + i as u64 - 1).collect();
-    let slots: Vec<u64> = blocks.iter().map(|b| b.slot).collect();
-    if occupied != slots {
-        return Err(format!("{name}: primary index occupancy differs from the block slots"));
+    let occupied: Vec<u64> = (0..offs.len() - 1).filter(|i| offs[i + 1] > offs[*i]).map(|i| i as u64).collect();
+    let rels: Option<Vec<u64>> = blocks.iter().map(|b| relative_slot(no, b)).collect();
+    if rels.as_ref() != Some(&occupied) {
+        return Err(format!("{name}: primary index occupancy differs from the blocks' relative slots"));
     }
     Ok(RefChunk { name: name.to_string(), chunk, primary, secondary, blocks })
+}
+
+/// Write each triplet once (`pool`) and hard-link it into a database directory
+/// (falls back to a copy where links are not supported).
+pub fn link_triplet(pool: &Path, dir: &Path, name: &str) -> std::io::Result<()> {
+    for ext in ["chunk", "primary", "secondary"] {
+        let (from, to) = (pool.join(format!("{name}.{ext}")), dir.join(format!("{name}.{ext}")));
+        if std::fs::hard_link(&from, &to).is_err() {
+            std::fs::copy(&from, &to)?;
+        }
+    }
+    Ok(())
 }
 
 /// Scratch directory under the system temp dir, unique per process + tag;
